@@ -359,7 +359,12 @@ Abs == [ now      |-> s.now,
                        sent |-> s.c.sent, msgs |-> s.c.msgs, decErr |-> s.c.decErr, gauge |-> s.c.ups - s.c.downs],
          errSet   |-> s.errLog,
          stopped  |-> s.stop = "stopped" ]
-Hid == [h |-> ToString(<<s.evs, s.out, s.pend, s.jobs, s.faults, s.stale, s.tickDue, s.stop, s.maxCutAge, s.reqs>>)]
+\* hidden part of the state (identity of a graph node); sets are rendered through functions so
+\* that the JSON text of a state is canonical
+Hid == [ evs |-> s.evs, out |-> s.out, pend |-> s.pend, faults |-> s.faults, stale |-> s.stale,
+         tickDue |-> s.tickDue, stop |-> s.stop, maxCutAge |-> s.maxCutAge,
+         jobs |-> [i \in 1..MaxEvents |-> {j \in s.jobs : j.id = i}],
+         reqs |-> [i \in 1..MaxEvents |-> [y \in 1..2 |-> {r \in s.reqs : r.tag = i /\ r.try = y}]] ]
 ASSUME PrintT(ToJson([params |-> [triples |-> [k \in Dests |-> Triples[k]], maxBatch |-> MaxBatch, sub |-> Sub,
                                   loose |-> Loose]]))
 Dump == PrintT(ToJson([fa |-> act.name, act |-> act', fabs |-> Abs, fhid |-> Hid, tabs |-> Abs', thid |-> Hid']))
